@@ -174,6 +174,16 @@ func (m *migrateBuilder) addModule(ctx context.Context, moduleDirPath string) (r
 		if err != nil {
 			return err
 		}
+		// A directory without a buf.yaml is built, linted and breaking-checked with the v1 defaults,
+		// so the module config in the migrated buf.yaml must be the v2 equivalent of these defaults.
+		lintConfig, err := equivalentLintConfigInV2(ctx, m.logger, bufconfig.DefaultLintConfigV1)
+		if err != nil {
+			return err
+		}
+		breakingConfig, err := equivalentBreakingConfigInV2(ctx, m.logger, bufconfig.DefaultBreakingConfigV1)
+		if err != nil {
+			return err
+		}
 		emptyModuleConfig, err := bufconfig.NewModuleConfig(
 			moduleRootRelativeToDestination,
 			nil,
@@ -184,27 +194,8 @@ func (m *migrateBuilder) addModule(ctx context.Context, moduleDirPath string) (r
 			map[string][]string{
 				".": {},
 			},
-			bufconfig.NewLintConfig(
-				bufconfig.NewEnabledCheckConfigForUseIDsAndCategories(
-					bufconfig.FileVersionV2,
-					nil,
-					false,
-				),
-				"",
-				false,
-				false,
-				false,
-				"",
-				false,
-			),
-			bufconfig.NewBreakingConfig(
-				bufconfig.NewEnabledCheckConfigForUseIDsAndCategories(
-					bufconfig.FileVersionV2,
-					nil,
-					false,
-				),
-				false,
-			),
+			lintConfig,
+			breakingConfig,
 		)
 		if err != nil {
 			return err
